@@ -895,8 +895,10 @@ class vPeriod(TimeBase):
 
     def __init__(self, per):
         start, end_or_duration = per
-        if not (isinstance(start, datetime) or isinstance(start, date)):
-            raise ValueError('Start value MUST be a datetime or date instance')
+        if not isinstance(start, datetime):
+            # a period starts at a DATE-TIME; a date has no time zone to take
+            # the TZID from and cannot be rendered as a period
+            raise ValueError('Start value MUST be a datetime instance')
         if not (isinstance(end_or_duration, datetime)
                 or isinstance(end_or_duration, date)
                 or isinstance(end_or_duration, timedelta)):
